@@ -27,7 +27,7 @@ const (
 
 func init() {
 	register("C12", "other", "T13 TotalOrder comparator (exhaustive abstract evaluation over the order type of the two keys, atoms via NormCmp), T10-iii MapOrder, T14-style codec type agreement, T6 WhoMayWrite + alias rule over the module, T15 ConstRelation, T4 GuardedBy",
-		"Decides the shape the canonical form depends on. Comparator: validators.Less is evaluated abstractly on all 9 order types of (Weight_i ? Weight_j, ID_i ? ID_j) and equals 'Weight descending, then ID ascending'; Swap exchanges the two elements, Len is len; the tie-break field ID of every sorted element is the key of the ranged map (unique). sortedArray appends one element per map entry (no early exit, none skipped), sorts with that comparator before every return, and the slice has no other use before the sort. calcCaches ranges over sortedArray() and stores ids[i], weights[i], indexes[id]=i for the loop index on every iteration. Only non-zero pairs: ValidatorsBuilder.Set stores only on the edge weight != 0 and deletes otherwise; newValidators fills a fresh map through Set and stores that map. RLP: EncodeRLP encodes sortedArray(); DecodeRLP decodes a slice with the identical element type, feeds every element to a fresh builder and replaces the receiver by the built set only after a successful decode. Immutability: T6 on all fields of Validators and cache (module-wide for literals and whole-struct stores), Copy/Build return newValidators(...) (fresh objects), and the alias rule: over all packages of the module, every value derived from cache.ids/weights/indexes or Validators.values - through the accessors that return them uncopied (discovered, not listed: IDs, SortedIDs, SortedWeights, Idxs), local variables, struct fields, parameters of module functions (flow-insensitive propagation on the typed AST to a fixpoint; accessor method values, interfaces exposing an accessor, containers and foreign callees are undecided) - is only ranged, indexed for reading, measured, compared with nil or copied from; an element store, append, sort, delete, copy-into or address-of is a violation, an unclassified use is undecided. Big builder: one shift variable, never assigned after its first use, is the second argument of every Rsh applied to each ranged stake; shift is 0 or bits-B on the edge bits > B (shift = max(0, BitLen(total)-B)); T15: 2^B-1 <= K < 2^(B+1)-1 for the limit K of calcCaches, so the scaled total fits (Build cannot reach the overflow panic) and the shift is the smallest that guarantees it; a common floor-shift is monotone, so stake order is kept. Not decided: equality of the decoded and the original set as a runtime fact (follows from the above modulo the RLP library, trusted); behaviour for negative big stakes (Set only drops nil and zero; outside the quantifier).",
+		"Decides the shape the canonical form depends on. Comparator: validators.Less is evaluated abstractly on all 9 order types of (Weight_i ? Weight_j, ID_i ? ID_j) and equals 'Weight descending, then ID ascending'; Swap exchanges the two elements (its straight-line body is executed on the symbolic state vv[i]=I, vv[j]=J), Len is len; the tie-break field ID of every sorted element is the key of the ranged map (unique). sortedArray puts one element {ID: key, Weight: value} per map entry into a slice that holds nothing else (append to an empty slice, or stores at a counter that starts at 0 and advances by one per iteration into a slice of exactly len(values) slots; no early exit, none skipped), sorts with that comparator before every return, and the slice has no other use before the sort. calcCaches iterates over sortedArray() from the first element (range, or a loop counted by one up to len of a local holding it; index and element bound by the loop header only) and stores ids[i], weights[i], indexes[id]=i for the loop index and the element of that iteration (range value, C[i], or a local holding C[i]) on every iteration. Constructors may give fields in the literal (keyed or positional) or by single stores through the fresh, non-escaping local that holds the object. Only non-zero pairs: ValidatorsBuilder.Set stores only on the edge weight != 0 and deletes otherwise; newValidators fills a fresh map through Set and stores that map. RLP: EncodeRLP encodes sortedArray(); DecodeRLP decodes a slice with the identical element type, feeds every element to a fresh builder and replaces the receiver by the built set only after a successful decode. Immutability: T6 on all fields of Validators and cache (module-wide for literals and whole-struct stores), Copy/Build return newValidators(...) (fresh objects), and the alias rule: over all packages of the module, every value derived from cache.ids/weights/indexes or Validators.values - through the accessors that return them uncopied (discovered, not listed: IDs, SortedIDs, SortedWeights, Idxs), local variables, struct fields, parameters of module functions (flow-insensitive propagation on the typed AST to a fixpoint; accessor method values, interfaces exposing an accessor, containers and foreign callees are undecided) - is only ranged, indexed for reading, measured, compared with nil or copied from; an element store, append, sort, delete, copy-into or address-of is a violation, an unclassified use is undecided. Big builder: one shift variable, never assigned after its first use, is the second argument of every Rsh applied to each ranged stake; shift is 0 or bits-B on the edge bits > B (shift = max(0, BitLen(total)-B)); T15: 2^B-1 <= K < 2^(B+1)-1 for the limit K of calcCaches, so the scaled total fits (Build cannot reach the overflow panic) and the shift is the smallest that guarantees it; a common floor-shift is monotone, so stake order is kept. Not decided: equality of the decoded and the original set as a runtime fact (follows from the above modulo the RLP library, trusted); behaviour for negative big stakes (Set only drops nil and zero; outside the quantifier).",
 		[]string{"go-ethereum rlp encodes/decodes a slice of struct{ID,Weight} faithfully and in order", "sort.Sort yields a permutation sorted by the given strict total order", "math/big contracts (BitLen, Rsh, Uint64, Add)", "big stakes are non-negative"},
 		runC12)
 }
@@ -50,6 +50,19 @@ type c12Cmp struct {
 
 func (k *c12Cmp) elemSide(e ast.Expr, depth int) (int, bool) {
 	e = ast.Unparen(e)
+	// a pointer to the element denotes the same element (p := &vv[i]; p.Weight, (*p).Weight): Less does not
+	// store through anything (checked by run), so the pointee is the element at entry
+	for {
+		if u, ok := e.(*ast.UnaryExpr); ok && u.Op == token.AND {
+			e = ast.Unparen(u.X)
+			continue
+		}
+		if s, ok := e.(*ast.StarExpr); ok {
+			e = ast.Unparen(s.X)
+			continue
+		}
+		break
+	}
 	if ix, ok := e.(*ast.IndexExpr); ok && varOf(k.f, ix.X) == k.recv {
 		switch varOf(k.f, ix.Index) {
 		case k.pi:
@@ -177,6 +190,126 @@ func (k *c12Cmp) run() bool {
 	return false
 }
 
+// c12SwapExchanges executes the body of Swap(i, j) symbolically. The two slots vv[i], vv[j] start as I and
+// J; a local holds I or J once it has been assigned (the zero value is not modelled, so for i == j every
+// value in play is the same element and any accepted sequence is the identity). Only straight-line
+// (parallel) assignments between the two slots and locals are understood. ok iff the final state is
+// vv[i]=J, vv[j]=I and nothing else was stored.
+func c12SwapExchanges(sw *core.FuncInfo) (bool, string) {
+	sr, si, sj := sw.Recv(), sw.Param(0), sw.Param(1)
+	if sr == nil || si == nil || sj == nil {
+		return false, "unnamed receiver or index parameters"
+	}
+	if len(assignsToVar(sw, sr))+len(assignsToVar(sw, si))+len(assignsToVar(sw, sj)) != 0 {
+		return false, "receiver or indices are reassigned"
+	}
+	if len(sw.Lits()) > 0 {
+		return false, "function literal in Swap"
+	}
+	slot := func(e ast.Expr) int {
+		x, ok := ast.Unparen(e).(*ast.IndexExpr)
+		if !ok || varOf(sw, x.X) != sr {
+			return -1
+		}
+		switch varOf(sw, x.Index) {
+		case si:
+			return 0
+		case sj:
+			return 1
+		}
+		return -1
+	}
+	slots := [2]string{"I", "J"}
+	env := map[*types.Var]string{}
+	eval := func(e ast.Expr) (string, bool) {
+		if s := slot(e); s >= 0 {
+			return slots[s], true
+		}
+		if v := varOf(sw, e); v != nil && v != sr && v != si && v != sj {
+			val, ok := env[v]
+			return val, ok
+		}
+		return "", false
+	}
+	store := func(l ast.Expr, val string) bool {
+		if s := slot(l); s >= 0 {
+			slots[s] = val
+			return true
+		}
+		if id, ok := ast.Unparen(l).(*ast.Ident); ok && id.Name == "_" {
+			return true
+		}
+		v := varOf(sw, l)
+		if v == nil || v == sr || v == si || v == sj || v.IsField() || v.Parent() == nil || v.Parent() == v.Pkg().Scope() {
+			return false
+		}
+		env[v] = val
+		return true
+	}
+	move := func(lhs, rhs []ast.Expr) (bool, string) {
+		vals := make([]string, len(rhs))
+		for k, r := range rhs {
+			v, ok := eval(r)
+			if !ok {
+				return false, "the value " + exprStr(r) + " is not one of the two elements"
+			}
+			vals[k] = v
+		}
+		for k, l := range lhs {
+			if !store(l, vals[k]) {
+				return false, "store to " + exprStr(l) + ", which is neither of the two slots nor a local"
+			}
+		}
+		return true, ""
+	}
+	for n, st := range sw.Body.List {
+		switch s := st.(type) {
+		case *ast.AssignStmt:
+			if (s.Tok != token.ASSIGN && s.Tok != token.DEFINE) || len(s.Lhs) != len(s.Rhs) {
+				return false, "assignment form not understood"
+			}
+			if ok, why := move(s.Lhs, s.Rhs); !ok {
+				return false, why
+			}
+		case *ast.DeclStmt:
+			gd, ok := s.Decl.(*ast.GenDecl)
+			if !ok || gd.Tok != token.VAR {
+				return false, "declaration not understood"
+			}
+			for _, sp := range gd.Specs {
+				vs, ok := sp.(*ast.ValueSpec)
+				if !ok {
+					return false, "declaration not understood"
+				}
+				if len(vs.Values) == 0 {
+					continue // unset until assigned
+				}
+				if len(vs.Values) != len(vs.Names) {
+					return false, "declaration not understood"
+				}
+				lhs := make([]ast.Expr, len(vs.Names))
+				for k, id := range vs.Names {
+					lhs[k] = id
+				}
+				if ok, why := move(lhs, vs.Values); !ok {
+					return false, why
+				}
+			}
+		case *ast.EmptyStmt:
+		case *ast.ReturnStmt:
+			if n != len(sw.Body.List)-1 {
+				return false, "return before the end"
+			}
+		default:
+			return false, fmt.Sprintf("statement kind %T", st)
+		}
+	}
+	if slots == [2]string{"J", "I"} {
+		return true, ""
+	}
+	return false, "the body leaves vv[i]=" + slots[0] + ", vv[j]=" + slots[1]
+}
+
 func c12First(xs []string, n int) string {
 	if len(xs) <= n {
 		return strings.Join(xs, "; ")
@@ -217,6 +350,48 @@ func c12EveryIteration(f *core.FuncInfo, loop ast.Stmt, pts []core.Point) bool {
 	return !skip
 }
 
+// c12FillCounter: the store st (slice[n] = x inside loop) uses a local counter n that is 0 before the loop and
+// is advanced by exactly one in every iteration, after the store; so the k-th iteration stores at slot k.
+func c12FillCounter(f *core.FuncInfo, loop ast.Stmt, st assignment, n *types.Var) bool {
+	if n == nil || n.IsField() || enclosingLoop(f, st.Stmt.Pos()) != loop {
+		return false
+	}
+	for _, l := range allLits(f) {
+		if len(assignsToVar(l, n)) > 0 {
+			return false
+		}
+	}
+	var incs []assignment
+	inits := 0
+	for _, a := range assignsToVar(f, n) {
+		inLoop := enclosingLoop(f, a.Stmt.Pos())
+		_, isIncDec := a.Stmt.(*ast.IncDecStmt)
+		switch {
+		case inLoop == nil && a.RHS != nil && (a.Tok == token.DEFINE || a.Tok == token.ASSIGN) && core.IsConstInt(f.Info(), a.RHS, 0):
+			inits++
+		case inLoop == nil && a.RHS == nil && a.Tok == token.DEFINE:
+			if _, isSpec := a.Stmt.(*ast.ValueSpec); !isSpec {
+				return false
+			}
+			inits++ // var n int
+		case inLoop == loop && isIncDec && a.Tok == token.INC:
+			incs = append(incs, a)
+		case inLoop == loop && a.Tok == token.ADD_ASSIGN && a.RHS != nil && core.IsConstInt(f.Info(), a.RHS, 1):
+			incs = append(incs, a)
+		default:
+			return false
+		}
+	}
+	if inits == 0 || len(incs) != 1 {
+		return false
+	}
+	// every assignment outside the loop sets n to 0 (its declaration included), so n is 0 when the loop starts
+	if ok, _ := precedesLocally(f, []core.Point{st.Pt}, incs[0].Pt); !ok {
+		return false
+	}
+	return c12EveryIteration(f, loop, []core.Point{incs[0].Pt})
+}
+
 func c12NoReturnInside(f *core.FuncInfo, loop ast.Stmt) bool {
 	ok := true
 	ast.Inspect(loop, func(n ast.Node) bool {
@@ -241,6 +416,40 @@ func c12RangeOver(f *core.FuncInfo, pred func(ast.Expr) bool) []*ast.RangeStmt {
 		return true
 	})
 	return out
+}
+
+// c12EmptyBuilder: d creates a fresh empty ValidatorsBuilder map: NewBuilder() (checked to return one in
+// C12.nonzero), make(...), or an empty composite literal.
+func c12EmptyBuilder(f *core.FuncInfo, d ast.Expr) bool {
+	if d == nil {
+		return false
+	}
+	if isCallTo(f, d, "builtin.make", c11Pkg+".NewBuilder") != nil {
+		return true
+	}
+	if l, ok := ast.Unparen(resolveLocal(f, d)).(*ast.CompositeLit); ok && len(l.Elts) == 0 {
+		if tv, ok := f.Info().Types[l]; ok {
+			_, isMap := tv.Type.Underlying().(*types.Map)
+			return isMap
+		}
+	}
+	return false
+}
+
+// c12ZeroBig: e creates a fresh big.Int with value 0: new(big.Int), big.NewInt(0) or &big.Int{}.
+func c12ZeroBig(f *core.FuncInfo, e ast.Expr) bool {
+	if isCallTo(f, e, "builtin.new") != nil {
+		return true
+	}
+	if call := isCallTo(f, e, "math/big.NewInt"); call != nil && len(call.Args) == 1 {
+		return core.IsConstInt(f.Info(), call.Args[0], 0)
+	}
+	if u, ok := ast.Unparen(e).(*ast.UnaryExpr); ok && u.Op == token.AND {
+		if l, ok := ast.Unparen(u.X).(*ast.CompositeLit); ok && len(l.Elts) == 0 {
+			return true
+		}
+	}
+	return false
 }
 
 func c12MethodCallOn(f *core.FuncInfo, e ast.Expr, name string, recvIs func(ast.Expr) bool) *ast.CallExpr {
@@ -290,24 +499,11 @@ func runC12(c *core.Ctx) {
 			"the sort comparator is not 'weight descending, ties by ascending ID' ("+c12First(bad, 2)+"): canonical order, index mapping and the encoded form change or depend on map iteration order")
 		// Swap and Len
 		sw := c.Fn(c12Arr + ".Swap")
-		okSw := false
-		if sr, si, sj := sw.Recv(), sw.Param(0), sw.Param(1); sr != nil && si != nil && sj != nil {
-			var stmts []ast.Stmt = sw.Body.List
-			if len(stmts) == 1 {
-				if as, ok := stmts[0].(*ast.AssignStmt); ok && as.Tok == token.ASSIGN && len(as.Lhs) == 2 && len(as.Rhs) == 2 {
-					at := func(e ast.Expr, ix *types.Var) bool {
-						x, ok := ast.Unparen(e).(*ast.IndexExpr)
-						return ok && varOf(sw, x.X) == sr && varOf(sw, x.Index) == ix
-					}
-					okSw = (at(as.Lhs[0], si) && at(as.Lhs[1], sj) && at(as.Rhs[0], sj) && at(as.Rhs[1], si)) ||
-						(at(as.Lhs[0], sj) && at(as.Lhs[1], si) && at(as.Rhs[0], si) && at(as.Rhs[1], sj))
-				}
-			}
-		}
+		okSw, whySw := c12SwapExchanges(sw)
 		if okSw {
-			c.Pass("Swap exchanges elements i and j", "T13 (sort.Interface)", "Swap is the parallel assignment vv[i], vv[j] = vv[j], vv[i]")
+			c.Pass("Swap exchanges elements i and j", "T13 (sort.Interface)", "executing Swap's straight-line body on the symbolic state vv[i]=I, vv[j]=J ends in vv[i]=J, vv[j]=I and stores nothing else")
 		} else {
-			c.Undecided("Swap exchanges elements i and j", "T13 (sort.Interface)", sw.Pos(), "Swap is not the single parallel exchange of elements i and j: sort.Sort may not produce a sorted permutation")
+			c.Undecided("Swap exchanges elements i and j", "T13 (sort.Interface)", sw.Pos(), "Swap is not shown to exchange exactly the elements i and j ("+whySw+"): sort.Sort may not produce a sorted permutation")
 		}
 		ln := c.Fn(c12Arr + ".Len")
 		okLen := len(ln.ReturnPoints()) > 0
@@ -354,30 +550,38 @@ func runC12(c *core.Ctx) {
 		for _, rp := range rps {
 			markIdent(rp.Node().(*ast.ReturnStmt).Results[0])
 		}
-		// appends
-		var appends []assignment
+		// the slice is filled either by append (starting empty) or by storing at a counter that starts at 0
+		// and is advanced by one after each store (starting with exactly len(values) slots)
+		elemOK := func(arg ast.Expr) bool {
+			// the element may be built in a single-definition local first (item := validator{...})
+			lit, ok := ast.Unparen(resolveLocal(f, arg)).(*ast.CompositeLit)
+			if !ok {
+				return false
+			}
+			fields := c11LitFields(f, lit)
+			if fields == nil || kv == nil || vv == nil || varOf(f, resolveLocal(f, fields[c12FID])) != kv || varOf(f, resolveLocal(f, fields[c12FWeight])) != vv {
+				return false
+			}
+			// built outside the loop: not the pair of the current iteration
+			return enclosingLoop(f, lit.Pos()) == ast.Stmt(loop)
+		}
+		var appends []assignment // every statement that puts an element into the slice
+		var makes []*ast.CallExpr
 		okElem := true
+		nAppend, nStore := 0, 0
 		for _, a := range assignsToVar(f, A) {
 			markIdent(a.LHS)
 			if call := isCallTo(f, a.RHS, "builtin.append"); call != nil && len(call.Args) >= 1 && varOf(f, call.Args[0]) == A {
 				markIdent(call.Args[0])
 				appends = append(appends, a)
-				if len(call.Args) != 2 || call.Ellipsis.IsValid() {
-					okElem = false
-					continue
-				}
-				lit, ok := ast.Unparen(call.Args[1]).(*ast.CompositeLit)
-				if !ok {
-					okElem = false
-					continue
-				}
-				fields := c11LitFields(f, lit)
-				if fields == nil || kv == nil || vv == nil || varOf(f, fields[c12FID]) != kv || varOf(f, fields[c12FWeight]) != vv {
+				nAppend++
+				if len(call.Args) != 2 || call.Ellipsis.IsValid() || !elemOK(call.Args[1]) {
 					okElem = false
 				}
 				continue
 			}
-			if isCallTo(f, a.RHS, "builtin.make") != nil {
+			if mk := isCallTo(f, a.RHS, "builtin.make"); mk != nil {
+				makes = append(makes, mk)
 				continue
 			}
 			if _, isSpec := a.Stmt.(*ast.ValueSpec); isSpec && a.RHS == nil {
@@ -385,10 +589,47 @@ func runC12(c *core.Ctx) {
 			}
 			okElem = false
 		}
-		c.Need(len(appends) >= 1, "sortedArray appends to the returned slice")
+		for _, a := range assignments(f) {
+			ix, ok := ast.Unparen(a.LHS).(*ast.IndexExpr)
+			if !ok || varOf(f, ix.X) != A {
+				continue
+			}
+			markIdent(ix.X)
+			appends = append(appends, a)
+			nStore++
+			if a.Tok != token.ASSIGN || a.RHS == nil || !elemOK(a.RHS) || !c12FillCounter(f, loop, a, varOf(f, ix.Index)) {
+				okElem = false
+			}
+		}
+		c.Need(len(appends) >= 1, "sortedArray appends to (or fills) the returned slice")
+		switch {
+		case nAppend > 0 && nStore > 0:
+			okElem = false
+		case nAppend > 0:
+			// appended elements follow whatever the slice already holds: it must start with length 0
+			for _, mk := range makes {
+				if len(mk.Args) < 2 || !core.IsConstInt(f.Info(), mk.Args[1], 0) {
+					okElem = false
+				}
+			}
+		default:
+			// one store per map entry at 0..n-1: the slice must have exactly len(values) slots
+			if len(makes) != 1 || nStore != 1 {
+				okElem = false
+			} else {
+				mk := makes[0]
+				ln := (*ast.CallExpr)(nil)
+				if len(mk.Args) >= 2 {
+					ln = isCallTo(f, mk.Args[1], "builtin.len")
+				}
+				if ln == nil || len(ln.Args) != 1 || !c11IsPath(f, ln.Args[0], recv, c11FVValues) {
+					okElem = false
+				}
+			}
+		}
 		c.Check(okElem && len(assignsToVar(f, kv))+len(assignsToVar(f, vv)) == 2, "element = {ID: map key, Weight: map value}", "T13 (unique tie-break)", loop.Pos(),
-			"each sorted element carries the ranged map's key as ID (unique by construction) and its value as Weight",
-			"the elements are not {ID: key, Weight: value} of the ranged map: IDs need not be unique, the comparator is not total and the order depends on map iteration")
+			"the slice starts empty (or with exactly len(values) slots filled at 0..n-1) and each element carries the ranged map's key as ID (unique by construction) and its value as Weight",
+			"the elements are not exactly {ID: key, Weight: value} of the ranged map (or the slice holds other elements besides them): IDs need not be unique, the comparator is not total and the order depends on map iteration")
 		inLoop := true
 		for _, a := range appends {
 			if enclosingLoop(f, a.Stmt.Pos()) != ast.Stmt(loop) {
@@ -458,28 +699,26 @@ func runC12(c *core.Ctx) {
 		calc := c.Fn(c11V + ".calcCaches")
 		V, _, _, _ := c11FindLimit(calc)
 		c.Need(V != nil && calc.Recv() != nil, "calcCaches returns one local cache variable")
-		loops := c12RangeOver(calc, func(e ast.Expr) bool {
-			return c12MethodCallOn(calc, e, c11V+".sortedArray", func(r ast.Expr) bool { return varOf(calc, r) == calc.Recv() }) != nil
+		// the loop over the canonical array, written as a range or as a counted loop over a local holding it
+		its := c11Iterations(calc, func(coll ast.Expr) bool {
+			return coll != nil && c12MethodCallOn(calc, coll, c11V+".sortedArray", func(r ast.Expr) bool { return varOf(calc, r) == calc.Recv() }) != nil
 		})
-		c.Need(len(loops) == 1, "calcCaches ranges once over receiver.sortedArray()")
-		loop := loops[0]
-		iv, ev := varOf(calc, loop.Key), varOf(calc, loop.Value)
-		c.Need(iv != nil && ev != nil && len(assignsToVar(calc, iv)) == 1 && len(assignsToVar(calc, ev)) == 1, "loop index and element are bound by the range only")
-		isElemField := func(e ast.Expr, field string) bool {
-			sel, ok := ast.Unparen(e).(*ast.SelectorExpr)
-			return ok && fieldNameOf(calc, sel) == field && varOf(calc, sel.X) == ev
-		}
+		c.Need(len(its) == 1, "calcCaches iterates once over receiver.sortedArray() from the first element, index and element bound by the loop header only")
+		it := its[0]
+		c.Need(it.Index != nil, "the loop over sortedArray() has an index variable")
+		loop := it.Stmt
+		isElemField := it.isElemField
 		type want struct {
 			name, field string
 			idx, val    func(ast.Expr) bool
 		}
-		isI := func(e ast.Expr) bool { return varOf(calc, core.StripConv(calc.Info(), e)) == iv }
+		isI := it.isIndex
 		ws := []want{
 			{"ids[i] = element.ID", c11FIDs, isI, func(e ast.Expr) bool { return isElemField(e, c12FID) }},
 			{"weights[i] = element.Weight", c11FWeights, isI, func(e ast.Expr) bool { return isElemField(e, c12FWeight) }},
 			{"indexes[element.ID] = i", c11FIndexes, func(e ast.Expr) bool { return isElemField(e, c12FID) }, isI},
 		}
-		_, complete := loopDone(calc, loop)
+		complete := it.Complete
 		for _, w := range ws {
 			var pts []core.Point
 			ok := true
@@ -571,23 +810,34 @@ func runC12(c *core.Ctx) {
 
 		nv := c.Fn(c11Pkg + ".newValidators")
 		par := nv.Param(0)
-		lit := c11FindLit(nv, c11V)
-		c.Need(par != nil && lit != nil, "newValidators(values) builds one Validators literal")
-		kvs := c11LitFields(nv, lit)
-		c.Need(kvs != nil, "keyed Validators literal")
+		obj := c11Constructed(nv, c11V)
+		c.Need(par != nil && obj != nil, "newValidators(values) builds one Validators object whose fields are each initialised once")
+		kvs := obj.Fields
 		M := varOf(nv, kvs[c11FVValues])
 		fresh := false
 		if M != nil && M != par {
 			if d := c11SingleDef(nv, M); d != nil {
-				if isCallTo(nv, d, "builtin.make") != nil {
-					fresh = true
-				} else if l, ok := ast.Unparen(d).(*ast.CompositeLit); ok && len(l.Elts) == 0 {
-					fresh = true
-				}
+				fresh = c12EmptyBuilder(nv, d)
 			}
 		}
-		c.Check(fresh, "newValidators stores a fresh map", "T6 (no alias of the builder)", lit.Pos(), "values is a map created inside newValidators, not the caller's builder",
+		c.Check(fresh, "newValidators stores a fresh map", "T6 (no alias of the builder)", obj.Pos, "values is a map created inside newValidators, not the caller's builder",
 			"the Validators object shares the caller's builder map: a later builder.Set changes the read-only set without recomputing order, total and quorum")
+		nb := c.Fn(c11Pkg + ".NewBuilder")
+		okNB := len(nb.ReturnPoints()) > 0
+		for _, rp := range nb.ReturnPoints() {
+			r := rp.Node().(*ast.ReturnStmt)
+			okR := false
+			if len(r.Results) == 1 {
+				e := ast.Unparen(resolveLocal(nb, r.Results[0]))
+				if l, ok := e.(*ast.CompositeLit); ok && len(l.Elts) == 0 {
+					okR = true
+				} else if isCallTo(nb, e, "builtin.make") != nil {
+					okR = true
+				}
+			}
+			okNB = okNB && okR
+		}
+		c.Check(okNB, "NewBuilder returns a fresh empty map", "T16 initial state", nb.Pos(), "every builder starts as an empty map of its own", "NewBuilder does not return a fresh empty map: sets built or decoded through it contain foreign pairs or share state")
 		loops := c12RangeOver(nv, func(e ast.Expr) bool { return varOf(nv, e) == par })
 		okFill := len(loops) == 1 && M != nil
 		if okFill {
@@ -602,11 +852,16 @@ func runC12(c *core.Ctx) {
 			}
 			_, complete := loopDone(nv, loop)
 			okFill = complete && c12NoReturnInside(nv, loop) && c12EveryIteration(nv, loop, pts)
-			// the copy loop completes before the object is built
+			// the copy loop completes before the caches are computed from the map (the map is a reference:
+			// whether the object literal is written before or after the loop does not matter)
 			if okFill {
 				if done, _ := loopDone(nv, loop); done != nil {
-					if lp, ok := nv.PointOf(lit); ok {
-						if b, _ := mustPassBlockBefore(nv, done, lp); !b {
+					calcs := nv.CallsTo(c11V + ".calcCaches")
+					if len(calcs) == 0 {
+						okFill = false
+					}
+					for _, cs := range calcs {
+						if b, _ := mustPassBlockBefore(nv, done, cs.Pt); !b {
 							okFill = false
 						}
 					}
@@ -685,44 +940,28 @@ func runC12(c *core.Ctx) {
 		okB := B != nil
 		if okB {
 			def := c11SingleDef(dec, B)
-			okB = def != nil && (isCallTo(dec, def, c11Pkg+".NewBuilder") != nil || isCallTo(dec, def, "builtin.make") != nil)
+			okB = c12EmptyBuilder(dec, def)
 		}
 		okFeed := false
 		if okB {
-			loops := c12RangeOver(dec, func(e ast.Expr) bool { return varOf(dec, e) == arr })
-			if len(loops) == 1 {
-				loop := loops[0]
-				isElem := func(e ast.Expr) bool {
-					v := varOf(dec, e)
-					if v == nil {
-						return false
-					}
-					if loop.Value != nil && v == varOf(dec, loop.Value) {
-						return len(assignsToVar(dec, v)) == 1
-					}
-					// item := arr[k] for the range key k
-					if d := c11SingleDef(dec, v); d != nil && loop.Key != nil {
-						if ix, ok := ast.Unparen(d).(*ast.IndexExpr); ok {
-							return varOf(dec, ix.X) == arr && varOf(dec, ix.Index) == varOf(dec, loop.Key) && len(assignsToVar(dec, varOf(dec, loop.Key))) == 1
-						}
-					}
-					return false
-				}
+			// the decoded slice is walked from its first element (range or counted loop), the element being
+			// the range value, arr[k], or a local holding arr[k]
+			its := c11Iterations(dec, func(coll ast.Expr) bool { return coll != nil && varOf(dec, coll) == arr })
+			if len(its) == 1 {
+				it := its[0]
 				var pts []core.Point
 				for _, cs := range dec.CallsTo(c12B + ".Set") {
 					if varOf(dec, cs.Recv()) != B || len(cs.Call.Args) != 2 {
 						continue
 					}
-					a0, ok0 := ast.Unparen(cs.Call.Args[0]).(*ast.SelectorExpr)
-					a1, ok1 := ast.Unparen(cs.Call.Args[1]).(*ast.SelectorExpr)
-					if ok0 && ok1 && isElem(a0.X) && varOf(dec, a0.X) == varOf(dec, a1.X) && fieldNameOf(dec, a0) == c12FID && fieldNameOf(dec, a1) == c12FWeight {
+					// both arguments are fields of the element of the current iteration, hence of the same element
+					if it.isElemField(cs.Call.Args[0], c12FID) && it.isElemField(cs.Call.Args[1], c12FWeight) {
 						pts = append(pts, cs.Pt)
 					}
 				}
-				done, complete := loopDone(dec, loop)
-				okFeed = complete && c12NoReturnInside(dec, loop) && c12EveryIteration(dec, loop, pts)
-				if okFeed && done != nil {
-					if b, _ := mustPassBlockBefore(dec, done, w.Pt); !b {
+				okFeed = it.everyIteration(pts)
+				if okFeed && it.Done != nil {
+					if b, _ := mustPassBlockBefore(dec, it.Done, w.Pt); !b {
 						okFeed = false
 					}
 				}
@@ -747,7 +986,7 @@ func runC12(c *core.Ctx) {
 		n := c11Writers(c,
 			[]string{c11FVValues, c11FVCache, c11FIndexes, c11FWeights, c11FIDs, c11FTotal},
 			[]string{c11V, c11Cache}, c11ValidatorOwners)
-		c.ExpectAtLeast("writers of Validators/cache state", n, len(c11ValidatorOwners))
+		c.ExpectAtLeast("writers of Validators/cache state", n, c11MinValidatorWriters)
 		// fresh constructors
 		fresh := map[*types.Func]bool{}
 		nvObj := p.LookupFunc(c11Pkg + ".newValidators")
@@ -833,7 +1072,7 @@ func runC12(c *core.Ctx) {
 		okS := B != nil && complete && c12NoReturnInside(f, loop) && c12EveryIteration(f, loop, sets)
 		if okS {
 			def := c11SingleDef(f, B)
-			okS = def != nil && isCallTo(f, def, c11Pkg+".NewBuilder") != nil
+			okS = c12EmptyBuilder(f, def)
 		}
 		okRet := okS && len(f.ReturnPoints()) > 0
 		for _, rp := range f.ReturnPoints() {
@@ -989,7 +1228,7 @@ func runC12(c *core.Ctx) {
 			if okTW {
 				init := false
 				for _, a := range assignsToVar(tw, R) {
-					if a.RHS != nil && isCallTo(tw, a.RHS, "builtin.new") != nil && enclosingLoop(tw, a.Stmt.Pos()) == nil {
+					if a.RHS != nil && c12ZeroBig(tw, a.RHS) && enclosingLoop(tw, a.Stmt.Pos()) == nil {
 						init = true
 					} else if a.RHS == nil || c12MethodCallOn(tw, a.RHS, "math/big.Int.Add", func(x ast.Expr) bool { return varOf(tw, x) == R }) == nil {
 						okTW = false
